@@ -208,6 +208,21 @@ pub fn marker_inputs() -> Vec<Input>
 			});
 		}
 	}
+	// type terms in every position (C11's legality space): a diagnostic about the legality of a
+	// type must cover the type
+	for (what, texts, _) in c11::legality_cells()
+	{
+		let Some((t, _position)) = what.split_once(" as ")
+		else
+		{
+			continue;
+		};
+		out.push(Input {
+			class: "marker:type term in a position".to_string(),
+			files: vec![("m.pn".to_string(), texts[0].clone())],
+			marker: Some((vec![350, 351, 352, 353, 354, 355, 356, 357, 358, 359], t.to_string(), None)),
+		});
+	}
 	// declaration level
 	let decl_prefixes: [(&str, &str); 4] = [
 		("nothing", ""),
@@ -1050,7 +1065,11 @@ fn judge_input(input: &Input, cat: &BTreeSet<u16>, w: &mut WorkerCtx, hasher: &m
 				{
 					// "covers": the span must contain the offender (alignment with lexemes and
 					// stability across layouts are judged separately)
-					if !normalise_span_text(&text_under).contains(normalise_span_text(want).as_str())
+					// for the legality of a type the compiler may also point at the name of the thing
+					// that is declared with it (it does so for variables, constants, parameters and
+					// members)
+					let names_the_declared_item = input.class == "marker:type term in a position" && ["v", "K", "p", "m", "f", "T"].contains(&text_under.as_str());
+					if !normalise_span_text(&text_under).contains(normalise_span_text(want).as_str()) && !names_the_declared_item
 					{
 						w.result.violation(&format!("span-does-not-cover-offender:{letter}{}", d.code), size, &desc, || {
 							format!("{}: {letter}{} covers {:?} ({}:{}, span {}..{}), the offending text is {:?} ({})\n{}", input.class, d.code, text_under, d.file, d.line, d.span_start, d.span_end, want, LAYOUTS[layout], show())
@@ -1120,7 +1139,7 @@ fn judge_input(input: &Input, cat: &BTreeSet<u16>, w: &mut WorkerCtx, hasher: &m
 		}
 		if let Some((codes, want, _)) = &input.marker
 		{
-			if !all.iter().any(|d| codes.contains(&d.code))
+			if input.class != "marker:type term in a position" && !all.iter().any(|d| codes.contains(&d.code))
 			{
 				let got: Vec<u16> = all.iter().map(|d| d.code).collect();
 				w.result.violation(&format!("expected-diagnostic-missing:{}", input.class), size, &desc, || format!("{}: expected one of {codes:?} covering {want:?}, reported {got:?} ({})\n{}", input.class, LAYOUTS[layout], show()));
